@@ -57,6 +57,7 @@ type Contract struct {
 	Opaque    bool
 	Inline    bool
 	Missing   bool
+	Split     int
 	CaseVar   string
 	CaseVals  []string
 	Unclaimed map[string]string
@@ -173,6 +174,11 @@ func parseContractFile(fset *token.FileSet, f *ast.File, pkg *packages.Package) 
 				cur.Opaque = true
 			case "inline":
 				cur.Inline = true
+			case "split":
+				cur.Split = 16
+				if n, err := strconv.Atoi(rest); err == nil {
+					cur.Split = n
+				}
 			case "cases":
 				w, r := splitWord(rest)
 				cur.CaseVar = w
